@@ -101,10 +101,26 @@ def run(m, chk):
     r.pure("PURE", NE, list(r.root(NE).fi.params))
     nfi = r.prog.func(NE)
     rets = [n for n in ast.walk(nfi.node) if isinstance(n, ast.Return)]
-    okn = len(rets) == 1 and isinstance(rets[0].value, ast.UnaryOp) and isinstance(rets[0].value.op, ast.Not) and (
-        (isinstance(rets[0].value.operand, ast.Call) and isinstance(rets[0].value.operand.func, ast.Attribute) and rets[0].value.operand.func.attr == "__eq__")
-        or (isinstance(rets[0].value.operand, ast.Compare) and isinstance(rets[0].value.operand.ops[0], ast.Eq))
-    ) and any(c.callees and c.callees[0].qual == EQ for c in r.root(NE).calls)
+
+    def is_eq_call(e):
+        return (isinstance(e, ast.Call) and isinstance(e.func, ast.Attribute) and e.func.attr == "__eq__") or (isinstance(e, ast.Compare) and len(e.ops) == 1 and isinstance(e.ops[0], ast.Eq))
+
+    def const(e, val):
+        return isinstance(e, ast.Return) and isinstance(e.value, ast.Constant) and e.value.value is val
+
+    body = [s_ for s_ in nfi.node.body if not (isinstance(s_, ast.Expr) and isinstance(s_.value, ast.Constant))]
+    shape = False
+    if len(body) == 1 and isinstance(body[0], ast.Return) and isinstance(body[0].value, ast.UnaryOp) and isinstance(body[0].value.op, ast.Not) and is_eq_call(body[0].value.operand):
+        shape = True  # return not self.__eq__(obj)
+    elif len(body) == 2 and isinstance(body[0], ast.If) and not body[0].orelse and len(body[0].body) == 1:
+        t = body[0].test
+        if is_eq_call(t) and const(body[0].body[0], False) and const(body[1], True):
+            shape = True  # if eq: return False; return True
+        if isinstance(t, ast.UnaryOp) and isinstance(t.op, ast.Not) and is_eq_call(t.operand) and const(body[0].body[0], True) and const(body[1], False):
+            shape = True
+    elif len(body) == 1 and isinstance(body[0], ast.Return) and isinstance(body[0].value, ast.IfExp) and is_eq_call(body[0].value.test) and isinstance(body[0].value.body, ast.Constant) and body[0].value.body.value is False and isinstance(body[0].value.orelse, ast.Constant) and body[0].value.orelse.value is True:
+        shape = True
+    okn = shape and any(c.callees and c.callees[0].qual == EQ for c in r.root(NE).calls)
     chk.ob("NEGATION", f"{NE} returns `not` of {EQ} on the same operands", okn, loc=f"curves.py:{nfi.node.lineno}", detail="" if okn else f"{NE}: is not the plain negation of {EQ}: `{seg(rets[0], 60) if rets else '?'}`", func=NE, construct="__ne__ not the negation of __eq__")
     first = [n for n in r.stmt_nodes(ctx) if n.kind == "test"]
     first = min(first, key=lambda n: n.id) if first else None
